@@ -341,13 +341,18 @@ def surface_stage(prop, tier, name):
     if r.returncode != 0:
         raise ToolError("tvh widths failed: %s" % r.stdout[-300:])
     n = 0
-    for row in json.load(open(outp)):
+    rows = json.load(open(outp))
+    # a UniqueArc that can be cloned into an independent allocation is no second owner: only a clone that shares counts
+    harmless = {r["kind"] for r in rows if r.get("fact") == "clone_shares_allocation" and r.get("shares") is False}
+    for row in rows:
         if row.get("fact") != "duplicable":
             continue
         n += 1
         k = row["kind"]
         base = "Unq" if k.startswith("Unq") else k
         exp_clone, exp_copy = base in clone_kinds, base in set(want["copy"])
+        if base == "Unq" and row["clone"] and not row["copy"] and (k in harmless or (k == "UnqDyn" and "Unq" in harmless)):
+            continue
         if row["clone"] != exp_clone or row["copy"] != exp_copy:
             res["violations"].append({"stage": name, "key": "surface:%s" % k, "row": row,
                                       "errors": ["[kind] handle type %s: Clone = %s, Copy = %s; the specification has Clone = %s, Copy = %s "
